@@ -24,6 +24,7 @@ static void h_assert_fail(const char *e) {
 
 static IWFS_FSM F;
 static int is_open;
+static uint64_t h_maxoff; /* opts->exfile.maxoff of the opens that follow (`maxoff n`; 0 = none) */
 static char path[512];
 
 static void rle_bitmap(struct fsm *fsm) {
@@ -69,7 +70,7 @@ static uint8_t pat(uint64_t seed, uint64_t i) {
 
 static iwrc do_open(int isnew, int bpow, uint32_t hdrlen, size_t bmlen, int strict, int notrim, int mmapall) {
   IWFS_FSM_OPTS opts = {
-    .exfile = { .file = { .path = path, .omode = isnew ? IWFS_OTRUNC : 0 } },
+    .exfile = { .file = { .path = path, .omode = isnew ? IWFS_OTRUNC : 0 }, .maxoff = h_maxoff },
     .bmlen = bmlen, .hdrlen = hdrlen, .bpow = (uint8_t) bpow, .mmap_all = mmapall != 0,
     .oflags = (strict ? IWFSM_STRICT : 0) | (notrim ? IWFSM_NO_TRIM_ON_CLOSE : 0) | IWFSM_NOLOCKS
   };
@@ -93,6 +94,9 @@ int main(int argc, char **argv) {
       h_assert_failed = h_assert_user = 0;
       iwrc rc = do_open(1, atoi(tv[1]), (uint32_t) strtoul(tv[2], 0, 10), strtoull(tv[3], 0, 10), atoi(tv[4]), atoi(tv[5]), atoi(tv[6]));
       printf("%" PRIu64, (uint64_t) rc); dump_state();
+    } else if (!strcmp(c, "maxoff") && n >= 2) { // maxoff n : limit on the file size for the opens that follow
+      h_maxoff = strtoull(tv[1], 0, 10);
+      printf("ok\n");
     } else if (!strcmp(c, "reopen") && n >= 4) { // reopen strict notrim mmapall
       if (is_open) { printf("?already-open\n"); continue; }
       iwrc rc = do_open(0, 0, 0, 0, atoi(tv[1]), atoi(tv[2]), atoi(tv[3]));
